@@ -268,8 +268,12 @@ def cwrite_harness(st, nbits, dt, nchans):
                 if not isint and DTYPE_OF[nbits] != "f4":
                     rep = V(k) == z3.ToReal(z3.ToInt(V(k)))
                 out["viol"].append(("representable values stored unchanged, same order", z3.And(k >= 0, k < ne, rep, got != want)))
-            # the reader's sample count (real parse_header arithmetic, see C20) for this data length
-            out["viol"].append(("inferred nsamples = samples written", (8 * nb) / nbits / nchans != n))
+            # the reader's sample count: the real parse_header arithmetic on a file with this data length
+            from .c20 import FakePath, HybridFile
+            from ..concrete.sigfile import header_bytes
+            from sigpyproc.io import sigproc
+            ph = rebind(sigproc.parse_header, validate_path=lambda fn: FakePath(HybridFile(header_bytes(nchans, nbits), nb)), int=s_int)
+            out["viol"].append(("inferred nsamples (real parse_header) = samples written", term(ph("o.fil")["nsamples"]) != n))
             return out
         finally:
             restore(o)
@@ -352,6 +356,8 @@ def run(R):
     from sigpyproc import base, block, fourierseries, header, timeseries
     from sigpyproc.io import fileio
     build_fileio(R)
+    from sigpyproc.io import sigproc as _sp
+    R.encode(_sp.parse_header)
     R.encode(fileio.FileWriter.cwrite, header.Header.prep_outfile, timeseries.TimeSeries.to_tim, timeseries.TimeSeries.to_dat,
              timeseries.TimeSeries.from_tim.__func__, timeseries.TimeSeries.from_dat.__func__, fourierseries.FourierSeries.to_spec,
              fourierseries.FourierSeries.to_fft, fourierseries.FourierSeries.from_spec.__func__, fourierseries.FourierSeries.from_fft.__func__,
